@@ -23,7 +23,7 @@ REACT = ["ack+resp", "resp+ack", "ack", "none", "nak", "dupack+resp", "ackwrong"
          "ack+resp2", "ack+disc", "disc", "ack+foreign+resp", "ack+connect+resp", "ack+resp+dupack", "ack+resp+disc"]
 
 
-def run_script(script, nreq, seed=0, dev=0):
+def run_script(script, nreq, seed=0, dev=0, intruder=None):
     from xknx.cemi import CEMIFrame, CEMILData, CEMIMessageCode
     from xknx.exceptions import ManagementConnectionError
     from xknx.telegram import IndividualAddress, Telegram, tpci
@@ -126,6 +126,19 @@ def run_script(script, nreq, seed=0, dev=0):
                 ev.append({"ev": "connect_failed"})
                 await stop_xknx(xknx)
                 return
+            async def second_user():
+                # another task of the application asks for a connection to the same device while this one is in use: it is refused
+                # ("already exists") and must leave the connection of the first user alone
+                await asyncio.sleep(intruder)
+                for _ in range(2):
+                    try:
+                        async with xknx.management.connection(PEER) as c2:
+                            await c2.request(DeviceDescriptorRead(descriptor=0))
+                    except ManagementConnectionError:
+                        pass
+                    await asyncio.sleep(0.33)
+
+            bg = asyncio.ensure_future(second_user()) if intruder is not None else None
             for i in range(nreq):
                 req = DeviceDescriptorRead(descriptor=0) if i % 2 == 0 else MemoryRead(address=0x60, count=1)
                 ev.append({"ev": "call", "id": i + 1, "kind": "DeviceDescriptorResponse" if i % 2 == 0 else "MemoryResponse", "t": now()})
@@ -138,6 +151,8 @@ def run_script(script, nreq, seed=0, dev=0):
                 except (Exception, asyncio.CancelledError) as ex:  # noqa: BLE001
                     ev.append({"ev": "ret", "id": i + 1, "out": "exc:" + type(ex).__name__, "why": "", "kind": "", "seq": 0, "t": now()})
                 await asyncio.sleep(0.2)
+            if bg is not None:
+                bg.cancel()
             try:
                 await xknx.management.disconnect(PEER)
             except ManagementConnectionError:
@@ -176,7 +191,8 @@ def run(ck):
     ck.assume("a request is bounded by rate wait + two acknowledgement timeouts (3 s) + response timeout (6 s) + 0.6 s")
     tlc.mc(ck, "mgmt/P2P_MC", require_actions=False)
     ps = plans(ck)
-    traces = [run_script(s, n, ck.seed) for s, n in ps]
+    intr = [(0.01, 0.05, 0.21, 0.5, 1.0, 3.2)[i % 6] if i % 3 == 1 else None for i in range(len(ps))]      # every third script with a second user
+    traces = [run_script(s, n, ck.seed, intruder=intr[i]) for i, (s, n) in enumerate(ps)]
     res = tlc.batch(ck, "mgmt/P2P_Trace", traces, min_per_shard=40)
     # rejected traces are validated again with the named deviation of the open known finding enabled
     bad = sorted(res.bad)
@@ -196,7 +212,7 @@ def run(ck):
             e2 = t[l2 - 1] if 0 < l2 <= len(t) else None
             key = {"script": ps[idx][0][:8], "nreq": ps[idx][1], "rejected": {k: v for k, v in (e2 or {}).items() if k != "t"}}
             what = f"management trace rejected at event {l2}: {e2}; before: {t[max(0, l2 - 7):l2 - 1]} (script {ps[idx][0][:8]})"
-        ck.violation(key, what, {"script": ps[idx][0], "nreq": ps[idx][1], "trace": t, "rejected_at": l2})
+        ck.violation(key, what, {"script": ps[idx][0], "nreq": ps[idx][1], "intruder": intr[idx], "trace": t, "rejected_at": l2})
     muts = []
     for i, tr in enumerate(traces[:400]):
         if i in res.bad:
@@ -230,7 +246,7 @@ def replay(ck, path):
     import json
 
     d = json.loads(open(path).read())["replay"]
-    t = run_script(d["script"], d["nreq"], ck.seed)
+    t = run_script(d["script"], d["nreq"], ck.seed, intruder=d.get("intruder"))
     res = tlc.batch(ck, "mgmt/P2P_Trace", [t])
     l = res.bad.get(0)
     print("trace:", t["ev"][:60], "\nrejected at:", l, t["ev"][l - 1] if l else None)
